@@ -13,8 +13,14 @@ Theorem c07_consts_agree :
   text_markers = Gen.C07Consts.fork_text_content_types /\
   Gen.C07Consts.fork_default_max_header_h1 = 10485760%N /\
   Gen.C07Consts.fork_default_max_header_h3 = 10485760%N /\
-  Gen.C07Consts.fork_h3_settings_cap = 8192%N.
-Proof. vm_compute. repeat split. Qed.
+  Gen.C07Consts.fork_h3_settings_cap = 8192%N /\
+  (Gen.C07Consts.fork_autodecode_guard_header = bs "Accept-Encoding" \/
+   Gen.C07Consts.fork_autodecode_guard_header = bs "Content-Encoding").
+Proof.
+  repeat split; try reflexivity.
+  (* the guard of autoDecodeResponseBody is one of the two headers the model knows how to evaluate *)
+  vm_compute. first [left; reflexivity | right; reflexivity].
+Qed.
 
 (* ---------- digest challenge (Model/Digest.v, C20) ---------- *)
 Import Digest.
